@@ -364,3 +364,89 @@ def rule_offset_sets(ctx, cd, which: str, rule_id: str):
                         ok, why = False, f"`{shown}` ignores the length prefix that precedes the elements"
                 ctx.ob(rule_id, t.rel, f"{lang}: {name}: element emitter receives an offset set covering all elements", ok, "" if ok else why, call.lineno)
     ctx.floor(rule_id, n, 4)
+
+
+# ---- the empty-type shortcut of the top-level (de)serializers ------------------------------------------------------------
+def rule_top_empty(ctx, cd, rule_id: str):
+    """serialize(t) / deserialize(t) of C and C++ emit a `(void) obj; return 0` shortcut for types without payload.  A type's own
+    routine never emits a delimiter header (its container does), so the test must be on t.inner_type; the outer bit length
+    set of a delimited type includes the 32-bit header and is never empty."""
+    N = cd.N
+    ctx.rule(
+        rule_id,
+        "the four top-level macros (C/C++ serialize, deserialize) decide 'this type has no payload' on "
+        "t.inner_type.bit_length_set.max (the routine's own output) - never on t.bit_length_set, which includes the delimiter "
+        "header emitted by the container: an empty delimited type would otherwise get a full body that compares against zero "
+        "and never touches its object (diagnostics under -Werror) ",
+    )
+    n = 0
+    for lang in ("c", "cpp"):
+        for which, mname in (("ser", "serialize"), ("des", "deserialize")):
+            t = cd.tmpl(lang, which)
+            m = cd.ts.macros(t).get(mname)
+            if m is None:
+                raise AnalysisError(f"anchor missing: macro {mname} in {t.rel}")
+            tparam = m.args[0].name if m.args else "t"
+            ifs = [x for x in m.body if isinstance(x, N.If)] or list(m.find_all(N.If))[:1]
+            if not ifs:
+                raise AnalysisError(f"anchor missing: emptiness test in {lang}/{mname}")
+            test = ifs[0].test
+            while isinstance(test, N.Not):
+                test = test.node
+            subj = [xs(g) for g in [test] + list(test.find_all(N.Getattr)) if isinstance(g, N.Getattr) and g.attr in ("max", "min") and "bit_length_set" in xs(g)]
+            n += 1
+            ok = bool(subj) and all(s_.startswith(f"{tparam}.inner_type.bit_length_set.") for s_ in subj)
+            ctx.ob(rule_id, t.rel, f"{lang}: {mname}: the empty-type shortcut is decided on {tparam}.inner_type.bit_length_set", ok,
+                   "" if ok else f"decided on {subj or xs(test)}", ifs[0].lineno)
+    ctx.floor(rule_id, n, 4)
+
+
+# ---- alignment padding before every field and at the end -----------------------------------------------------------------
+def rule_padding(ctx, cd, which: str, rule_id: str):
+    """The offsets pydsdl yields for fields are *after* alignment padding, so they can never justify omitting the padding:
+    before every field but the first, and once after the last field, the padding macro is called unconditionally."""
+    N = cd.N
+    ctx.rule(
+        rule_id,
+        "C/C++: in the top-level impl macro the call _pad_to_alignment(<field>.data_type.alignment_requirement) is emitted for "
+        "every field except the first (no further condition - the offset iterate_fields_with_offsets() yields is the padded "
+        "one and cannot show whether padding is needed), and _pad_to_alignment(t.inner_type.alignment_requirement) once at "
+        "the end, outside any condition other than the struct/union split",
+    )
+    n = 0
+    mname = "_serialize_impl" if which == "ser" else "_deserialize_impl"
+    for lang in ("c", "cpp"):
+        t = cd.tmpl(lang, which)
+        m = cd.macro(lang, which, mname)
+        field_calls, final_calls = [], []
+        for node, stack in j2front.walk(m):
+            if isinstance(node, N.Call) and isinstance(node.node, N.Name) and node.node.name == "_pad_to_alignment" and node.args:
+                a = xs(node.args[0])
+                in_field_loop = [g for g in stack if g.kind == "for" and "iterate_fields_with_offsets" in xs(g.node.iter)]
+                if in_field_loop and "data_type.alignment_requirement" in a:
+                    field_calls.append((node, stack, in_field_loop[-1]))
+                elif a.endswith("inner_type.alignment_requirement"):
+                    final_calls.append((node, stack))
+        for node, stack, loop in field_calls:
+            n += 1
+            # conditions between the loop and the call
+            idx = list(stack).index(loop)
+            inner = j2front.facts(list(stack)[idx + 1:])
+            extra = [(e, p) for e, p in inner if "loop.first" not in e]
+            lv = xs(loop.node.target).strip("()").split(",")[0].strip()
+            ok = not extra and xs(node.args[0]) == f"{lv}.data_type.alignment_requirement"
+            ctx.ob(rule_id, t.rel, f"{lang}: {mname}: padding before every field but the first is unconditional", ok,
+                   "" if ok else f"padding call `{xs(node)}` only under {extra}: fields that need padding at run time are written/read unaligned "
+                   "(nested composites then refuse the buffer or decode from the wrong bits)", node.lineno)
+        if not field_calls:
+            ctx.ob(rule_id, t.rel, f"{lang}: {mname}: padding before every field but the first is unconditional", False, "no padding call in the field loop", m.lineno)
+            n += 1
+        for node, stack in final_calls:
+            n += 1
+            extra = [(e, p) for e, p in j2front.facts(stack) if "UnionType" not in e]
+            ok = not extra
+            ctx.ob(rule_id, t.rel, f"{lang}: {mname}: final padding to the type's own alignment is unconditional", ok, "" if ok else f"only under {extra}", node.lineno)
+        if not final_calls:
+            n += 1
+            ctx.ob(rule_id, t.rel, f"{lang}: {mname}: final padding to the type's own alignment is unconditional", False, "no final padding call", m.lineno)
+    ctx.floor(rule_id, n, 4)
